@@ -85,6 +85,10 @@ def run(ctx):
         campaign.judge(ctx, camp, vs, conformance=None, clauses=("C18.trunc",))
         cvs = campaign.validate_cam(camp)
         campaign.judge_cam(ctx, camp, cvs, ["C18."])
+        if not quick:
+            # the repository's own tests, recorded under the hook and replayed through the pushdown machine
+            from .. import repotests
+            repotests.run(ctx, ["C18."])
         for cid, m in camp.sh.meta.items():
             if "case" in m and not m["case"]["res"]["ok"] and len(m["case"]["res"].get("path", [])) >= 3:
                 nt += 1
